@@ -514,17 +514,29 @@ def c11(ctx):
             r = sh([bita, "info", "--metadata-key", "alpha", arc])
             if r.returncode != 0 or r.stdout != bytes(range(256)) + b"tail":
                 viol.add("metadata-value-not-returned-verbatim", detail)
+        # the same archive inspected over HTTP reports the same values
+        srv.files[f"a{i}.cba"] = ab
+        local = sh([bita, "info", arc])
+        remote = sh([bita, "info", srv.url(f"a{i}.cba")])
+        if remote.returncode != 0 or remote.stdout != local.stdout:
+            detail["remote_rc"] = remote.returncode
+            viol.add("info-over-http-differs-from-local", detail)
         return (hl, cname, ch, bool(md))
 
-    with ThreadPoolExecutor(max_workers=16) as ex:
-        for k in ex.map(one, range(len(cases))):
-            if k:
-                distinct.add(k)
-                if len(samples) < 3:
-                    samples.append({"hash_len": k[0], "compression": k[1], "chunker": k[2], "metadata": k[3]})
+    srv = RangeServer({})
+    srv.start()
+    try:
+        with ThreadPoolExecutor(max_workers=16) as ex:
+            for k in ex.map(one, range(len(cases))):
+                if k:
+                    distinct.add(k)
+                    if len(samples) < 3:
+                        samples.append({"hash_len": k[0], "compression": k[1], "chunker": k[2], "metadata": k[3]})
+    finally:
+        srv.stop()
     shutil.rmtree(root, ignore_errors=True)
     cov = {"evaluations": len(cases), "distinct_nontrivial": len(distinct), "exhaustive": True, "samples": samples,
-           "rule": "real binary: hash length {4,31,64} x {none, brotli 3/11, zstd 5, lzma 2} x {fixed, rollsum, buzhash} (+ binary/str metadata on every 3rd): `bita info` must report exactly the requested hash length, compression and level, chunker parameters, metadata keys with sizes, the true source size and Blake2b-512, the stored header checksum (recomputed here) and the file length; --metadata-key returns the value verbatim"}
+           "rule": "real binary: hash length {4,31,64} x {none, brotli 3/11, zstd 5, lzma 2} x {fixed, rollsum, buzhash} (+ binary/str metadata on every 3rd): `bita info` must report exactly the requested hash length, compression and level, chunker parameters, metadata keys with sizes, the true source size and Blake2b-512, the stored header checksum (recomputed here) and the file length; --metadata-key returns the value verbatim; `bita info <url>` over HTTP prints exactly what `bita info <file>` prints"}
     return result(ctx["pid"], "exploration", cov, viol, t0, ["A5"])
 
 
